@@ -11,6 +11,8 @@ CONSTANTS
   MaxOps = 1000000
   SysExport = FALSE
   MaxItems = 100000
+  CmtPool = {}
+  MaxMeta = 100000
   TraceFile = "trace.ndjson"
   VFile = "viol.ndjson"
 POSTCONDITION Accepted
